@@ -383,6 +383,77 @@ def gen_settings(rng, nmut=None):
     return s, labels
 
 
+# --------------------------------------------------------------------------------------------------
+# deterministic probes derived from the generated tables
+RELATED = [      # attributes whose tables are siblings: a name valid for one is the natural wrong value for another
+    ['certificate_compression_send', 'certificate_compression_receive'],
+    ['rsaSigHashes', 'dsaSigHashes', 'ecdsaSigHashes'],
+    ['eccCurves', 'dhGroups'],
+    ['rsaSchemes', 'more_sig_schemes'],
+    ['cipherNames'], ['macNames'], ['keyExchangeNames'], ['cipherImplementations'], ['certificateTypes'], ['psk_modes'],
+]
+# names that exist in tlslite but may be absent from a table on this installation (optional packages, flags)
+OPTIONAL_NAMES = {
+    'certificate_compression_send': ['zlib', 'brotli', 'zstd'],
+    'certificate_compression_receive': ['zlib', 'brotli', 'zstd'],
+    'eccCurves': ['secp256r1mlkem768', 'x25519mlkem768', 'secp384r1mlkem1024', 'secp224r1', 'secp192r1'],
+    'more_sig_schemes': ['mldsa87', 'mldsa65', 'mldsa44'],
+    'cipherNames': ['chacha20-poly1305_draft00', 'aes128ccm_8', 'aes256ccm_8', 'rc4', 'null'],
+    'macNames': ['md5'], 'rsaSigHashes': ['md5'], 'dsaSigHashes': ['md5'], 'ecdsaSigHashes': ['md5'],
+}
+
+
+def probe_cases():
+    """(a) for every name attribute, every name that is valid for a SIBLING attribute or exists only with an
+    optional package but is not in this attribute's table (symmetric difference of the generated tables):
+    defaults + that name -> outside the documented domain;
+    (b) for every name attribute and every name of its table: that name alone -> inside the domain, output must be
+    supported by the installation (or the object rejected when nothing supported is left);
+    (c) ticketCipher / defaultCurve over the union of the cipher / group tables."""
+    m = hsmod()
+    out = []
+
+    def table(f):
+        return list(getattr(m, NAME_FIELDS[f]))
+    for grp in RELATED:
+        pool = []
+        for f in grp:
+            for n in table(f) + OPTIONAL_NAMES.get(f, []):
+                if n not in pool:
+                    pool.append(n)
+        for f in grp:
+            for n in pool:
+                if n not in table(f):
+                    s = m.HandshakeSettings()
+                    setattr(s, f, list(getattr(s, f)) + [n])
+                    out.append((s, ['probe-cross:%s:%s' % (f, n)]))
+                    s = m.HandshakeSettings()
+                    setattr(s, f, [n])
+                    if f in ('eccCurves', 'dhGroups'):
+                        s.keyShares = []
+                    out.append((s, ['probe-cross-alone:%s:%s' % (f, n)]))
+    for f in sorted(NAME_FIELDS):
+        for n in table(f):
+            s = m.HandshakeSettings()
+            setattr(s, f, [n])
+            if f in ('eccCurves', 'dhGroups'):
+                s.keyShares = [k for k in s.keyShares if k == n]
+            out.append((s, ['probe-single:%s:%s' % (f, n)]))
+    for n in list(m.ALL_CIPHER_NAMES) + list(m.TICKET_CIPHERS):
+        s = m.HandshakeSettings()
+        s.ticketCipher = n
+        out.append((s, ['probe-scalar:ticketCipher:%s' % n]))
+    for n in list(m.ALL_CURVE_NAMES) + list(m.ALL_DH_GROUP_NAMES) + OPTIONAL_NAMES['eccCurves']:
+        s = m.HandshakeSettings()
+        s.defaultCurve = n
+        out.append((s, ['probe-scalar:defaultCurve:%s' % n]))
+    for n in list(m.ALL_CURVE_NAMES) + list(m.ALL_DH_GROUP_NAMES):
+        s = m.HandshakeSettings()
+        s.keyShares = [n]
+        out.append((s, ['probe-single:keyShares:%s' % n]))
+    return out
+
+
 # wrong-TYPE values (outside what the Coq model represents): examined on the implementation only
 def wrongtype_cases():
     """Deterministic catalogue: (field, class label, value factory)."""
